@@ -219,7 +219,7 @@ func runSched(in schedInput) map[string]any {
 				panic("unknown action " + a.Op)
 			}
 		}
-		if _, err := rt.Quiesce(); err != nil {
+		if _, err := quiesce(); err != nil {
 			return inconclusive(fmt.Sprintf("no quiescence after step %d", k))
 		}
 		// observe: every operation in the scope of this step (the keys of the spec's observation)
@@ -286,7 +286,7 @@ func runSched(in schedInput) map[string]any {
 	}
 	w.itStop()
 	chanOf(w.ch, false, 0).Close()
-	if _, err := rt.Quiesce(); err != nil {
+	if _, err := quiesce(); err != nil {
 		return inconclusive("no quiescence at tear-down")
 	}
 	for id, o := range ops {
